@@ -85,7 +85,7 @@ def main(argv=None) -> int:
     nshards = max(1, ns.shards)
 
     # replay tier: saved inputs of earlier findings (fixed or open) run first, without Hypothesis
-    reg_failures, n_reg = _regressions(prop, mod)
+    reg_failures, n_reg, reg_known = _regressions(prop, mod)
     jobs = [(prop, ns.tier, seed, i, nshards, ns.scale) for i in range(nshards)]
     if nshards == 1:
         results = [_worker(jobs[0])]
@@ -102,6 +102,8 @@ def main(argv=None) -> int:
     tally = Tally()
     by_sig: dict[str, dict] = dict(reg_failures)
     tally.count("regression_replays", n_reg)
+    for k, v in reg_known.items():
+        tally.known_hits[k] = tally.known_hits.get(k, 0) + v
     for r in results:
         tally.merge(r["tally"])
         for f in r["failures"]:
@@ -162,8 +164,9 @@ def _regressions(prop: str, mod):
     d = os.path.join(VERIF_DIR, "regressions", prop)
     out: dict[str, dict] = {}
     n = 0
+    known_hits: dict[str, int] = {}
     if not os.path.isdir(d):
-        return out, n
+        return out, n, known_hits
     known = open_signatures(prop)
     for name in sorted(os.listdir(d)):
         if not name.endswith(".json"):
@@ -174,6 +177,7 @@ def _regressions(prop: str, mod):
         vs = mod.replay(body["case"], body.get("kind", ""))
         for v in vs:
             if v.signature in known:
+                known_hits[v.signature] = known_hits.get(v.signature, 0) + 1
                 continue
             if v.signature not in out:
                 out[v.signature] = {
@@ -183,7 +187,7 @@ def _regressions(prop: str, mod):
                     "kind": body.get("kind", ""),
                     "size": len(json.dumps(body["case"])),
                 }
-    return out, n
+    return out, n, known_hits
 
 
 def _replay(prop: str, mod, path: str) -> int:
